@@ -106,7 +106,7 @@ PROPS = {
         oracle_n_quick=1500, oracle_n_thorough=50000,
         explanation="C08: C08_writer_position, C08_mapping_at_token_start, C08_sorted, C08_segments_link_lexemes, C08_segments_link_lexemes_compact, C08_identifiers_covered.",
         open_statements=["segment linking for pretty output when cleanEmptyLines changes the buffer: false on the unchanged tree (KF10, KF3); explored by the oracle"],
-        assumptions=["line/column = (LF count, bytes since last LF); a CR inside written text is outside the theorem (the mapper counts CR as a line break, the lexer does not)"],
+        assumptions=["segment clause: source free of CR (lone CR: KF17); configurations whose post-processing leaves the buffer as written (always compact; pretty unless KF10 / KF3 apply)", "line/column = (LF count, bytes since last LF); a CR inside written text is outside the theorem (the mapper counts CR as a line break, the lexer does not)"],
     ),
     "C06": dict(
         design_ref="DESIGN.md 5.6",
@@ -119,6 +119,7 @@ PROPS = {
         oracle_n_quick=600, oracle_n_thorough=20000, oracle_n_search=3000,
         explanation="C06: C06_semi_only, C06_indent_only, C06_pretty_round_trip, C06_idempotent.",
         open_statements=["with semicolons off same-tree and idempotence are false on the unchanged tree (KF1, KF2): reported by the oracle"],
+        assumptions=["round trip and idempotence: pretty configurations that write semicolons; every string literal of the source is stable under print + re-scan (strings_stable: holds for valid JavaScript literals, C07_valid_strings_stable); no line of a multi-line literal ends in a blank (literals_trim_safe: otherwise KF3)"],
     ),
     "C16": dict(
         design_ref="DESIGN.md 5.16",
@@ -130,6 +131,7 @@ PROPS = {
         oracle_n_quick=1500, oracle_n_thorough=50000,
         explanation="C16: C16_balanced_stmt, C16_balanced_expr, C16_final_top, C16_reflects_nesting, C16_lexed_tokens_distinct.",
         open_statements=["CurrentContext = Function for tokens directly inside a function body: false on the unchanged tree (KF8); proved instead: it is Block there"],
+        assumptions=["nesting clause: programs of the grammar; tokens pairwise distinct (holds for every lexer output: C16_lexed_tokens_distinct)"],
     ),
     "C04": dict(
         design_ref="DESIGN.md 5.4",
@@ -183,6 +185,7 @@ PROPS = {
         oracle_n_quick=600, oracle_n_thorough=20000,
         explanation="C15: C15_compact_none, C15_only_comment_ops_differ, C15_comments_verbatim, C15_content_inert, C15_comments_stay_in_place.",
         open_statements=["with semicolons off the formatted output may not parse (KF1, KF2): the position clause is then explored by the oracle"],
+        assumptions=["position clause: pretty configurations that write semicolons; strings_stable; literals_trim_safe (as for C06)"],
     ),
     "C01": dict(
         design_ref="DESIGN.md 4 (C01), 4.1",
